@@ -26,6 +26,6 @@ def jobs(tier):
 META = {
     "trusted_base": B.BASIC_TRUSTED + ["strict write-failure model: a failed stdout call is reported by that call only (glibc drops the buffer on a failed flush, confirmed natively)"],
     "assumptions": [],
-    "outside": ["internal_dump_all_dialects (-D): contract assumed", "per-byte-offset interaction with real stream buffering is abstracted by the nondeterministic failure point"],
-    "explanation": "every function's contract: returns success => no stdout write failed since entry (g_wfail unchanged); main: exit 0 => no write, including the final flush, failed",
+    "outside": ["internal_dump_all_dialects (-D): contract assumed", "per-byte-offset interaction with real stream buffering is abstracted by the nondeterministic failure point", "dfs commands other than type / extract-files / extract-unused return true regardless of std::cout: decided by the main tail (flush + test)"],
+    "explanation": "every function's contract: returns success => no stdout write failed since entry (g_wfail unchanged); main: exit 0 => no write, including the final flush, failed; dfs: main tail flushes and tests std::cout; write_span, the extract-files body file and create_inf_file succeed only if their ofstream is still good after close()",
 }
